@@ -816,7 +816,10 @@ cells are hit exactly once in `2^L` steps, so the `Σ_{norm[s] > 0} norm[s] = hi
 `while (position > highThreshold)` skip loop never runs out of its `2^L` budget".  Until then `SpreadOK (spread norm L) norm L` stays
 a hypothesis of `buildSeqTable_closed_of_spread` / `block_buildSeqTable_closed`; it is decidable (`FSE.spreadOK`, `spreadOK_iff`),
 is proved for the three predefined distributions (`default_tables_spreadOK`) and is evaluated on every table met by the
-differential runs (`tools/ent_fse.py`: `spreadOK=true`). -/
+differential runs (`tools/ent_fse.py`: `spreadOK=true`).
+
+UPDATE: the full statement is now proved, along exactly this plan, as `FSE.spread_ok` (Lemmas/SpreadRT.lean; with `4 ≤ L`), and
+`Props.C04.described_tables_closed` is `block_buildSeqTable_closed` without the `SpreadOK` hypothesis. -/
 theorem spread_ok_partial {norm : Array Int} {L : Nat} (hN : NormOK norm L) :
     (spread norm L).size = 2 ^ L ∧ (∀ u, u < (spread norm L).size → (spread norm L)[u]! < norm.size) ∧
       (4 ≤ L → tableStep (2 ^ L) % 2 = 1) := by
